@@ -208,7 +208,11 @@ def run_study(case, res):
     if e is not None:
         res["violations"].append(core.viol("design_failed_after_history", case, msg=f"{cfg['method']}/{cfg['pipe']}: after changing {what} on a used manager find_design raised {type(e).__name__}: {e}", action=what))
     else:
-        sig = full_signature(m)
+        try:
+            sig = full_signature(m)
+        except Exception as ex:  # noqa: BLE001  (e.g. a field handed back without temperatures)
+            g_ = m._search.ghe
+            sig = {"nbh": len(g_.gFunction.bore_locations), "H": physics.fhex(g_.bhe.b.H), "max_eft": "none", "min_eft": "none", "unreadable": f"{type(ex).__name__}: {ex}"}
         if sig != ref:
             diff = [key for key in ref if sig.get(key) != ref[key]]
             res["violations"].append(core.viol("design_depends_on_history", case, observed={k2: sig[k2] for k2 in ("nbh", "H", "max_eft", "min_eft")},
